@@ -1,6 +1,7 @@
 (* C05 -- Results do not depend on thread scheduling.  Property theorems only. *)
 From Coq Require Import List NArith.
-From FP Require Import Model.Base Model.Collector Proofs.Interleave Proofs.C05_proofs.
+From FP Require Import Model.Base Model.Rdh Model.Scanner Model.CdpRunning Model.Link Model.Collector Model.System Spec.Framing Spec.GroundTruth
+  Proofs.Interleave Proofs.C03_proofs Proofs.C05_proofs Proofs.C07_run Proofs.C14_proofs Proofs.C05_run.
 From FP Require Gen.Facts.
 Import ListNotations.
 Open Scope N_scope.
@@ -40,8 +41,85 @@ Theorem C05_refuted_unsorted_when_muted :
   finalize false true (collect_all [CS_error (c05_m 0 2); CS_error (c05_m 64 1)]).
 Proof. exact c05_refuted_unsorted_when_muted. Qed.
 
+(* ONE WHOLE `check` RUN (scanner, dispatcher, every validator, analysis thread, collector, report, exit status).
+   `sender_streams c input` is what the threads of the run put on the statistics channel, each in its own order; `run_check_sched`
+   is the run in which the channel delivers these messages in the order `a`.  For EVERY well-framed input (any number of links,
+   any interleaving, any contents, also corrupted), every check mode / target / filter / display option, and EVERY arrival order `a`
+   the run ends exactly as the model's own run does: same collector state (the statistics file), same displayed messages in the
+   same order, same exit status.  What `streams_ok` asks as a hypothesis in the collector theorem is PROVED here for the run's own
+   streams: two messages with the same leading offset come from the same sender because each message of a validator is located at
+   the start of an RDH or word of one of ITS packets (C07_whole_run) and the packets of a well-framed input do not overlap (C03).
+   Provisos, all the property's own: no fatal input error (well-framed, known system id), no error cap (the model has no
+   early stop), the payload layout agrees with the header's data format (the proviso of C07; without it see
+   C05_layout_proviso_needed below), fewer than 2^32 packets / payload bytes (the reader's counters). *)
+Theorem C05_whole_run : forall c pkts ff a,
+  Forall wf_pkt pkts -> N.of_nat (length pkts) < U32_MAX -> pay_all pkts < U32_MAX ->
+  (forall p, In p pkts -> layout_rp (hdr p) (p_payload p)) ->
+  (forall p r, pkts = p :: r -> known_sysid (r_system_id (hdr p)) = true) ->
+  Interleave (sender_streams c (serialize pkts)) a ->
+  run_check_sched ff c (serialize pkts) a = run_check ff c (serialize pkts).
+Proof. exact (fun c pkts ff a H1 H2 H3 H4 H5 => c05_whole_run c pkts (eq_refl : Gen.Facts.cdp_offset_sampled_after = true) H1 H2 H3 H4 H5 ff a
+                (eq_refl : Gen.Facts.error_sort_when_muted = true)). Qed.
+
+(* the model's own run IS one of these runs: the arrival order `one stream after the other` *)
+Theorem C05_model_run_is_one_schedule : forall ff c input,
+  run_check ff c input = run_check_sched ff c input (concat (sender_streams c input)) /\
+  Interleave (sender_streams c input) (concat (sender_streams c input)).
+Proof. intros ff c input. split; [apply run_check_is_sched|apply interleave_concat]. Qed.
+
+(* the streams of the run satisfy the collector theorem's requirements *)
+Theorem C05_run_streams_ok : forall c pkts,
+  Forall wf_pkt pkts -> N.of_nat (length pkts) < U32_MAX -> pay_all pkts < U32_MAX ->
+  (forall p, In p pkts -> layout_rp (hdr p) (p_payload p)) ->
+  (forall p r, pkts = p :: r -> known_sysid (r_system_id (hdr p)) = true) ->
+  streams_ok (sender_streams c (serialize pkts)).
+Proof. exact (fun c pkts => whole_streams_ok c pkts (eq_refl : Gen.Facts.cdp_offset_sampled_after = true)). Qed.
+
+(* non-vacuity: two links interleaved, each with a faulty RDH (priority bit): two validators report, the streams can be
+   delivered in another order than the model's, and the hypotheses of the theorem hold *)
+Definition c05_hdr (link prio : N) : list N :=
+  [7;64;42;80;prio;32;0;0; 64;0;64;0;link;0;24;0] ++ repeat 0 8 ++ [2;0;0;0;0;0;0;0; 3;106;0;0;0;0;0;0] ++ repeat 0 24.
+Definition c05_pkts : list packet :=
+  [ {| p_hdr := c05_hdr 0 0; p_payload := [] |}; {| p_hdr := c05_hdr 0 1; p_payload := [] |}; {| p_hdr := c05_hdr 1 1; p_payload := [] |} ].
+Definition c05_cfg : run_cfg :=
+  {| rc_scan := {| sc_filter := None; sc_skip := true; sc_src := Src_file |};
+     rc_check := {| v_running := false; v_target := T_none; v_period := None; v_custom_version := None; v_chip_count := None; v_chip_orders := None |};
+     rc_mute := false; rc_cap := 0; rc_filter := None; rc_exit := Some 3; rc_counts := {| cc_cdps := None; cc_pht := None |} |}.
+Example C05_whole_run_nonvacuous :
+  Forall wf_pkt c05_pkts /\ (forall p, In p c05_pkts -> layout_rp (hdr p) (p_payload p)) /\
+  (forall p r, c05_pkts = p :: r -> known_sysid (r_system_id (hdr p)) = true) /\
+  length (sender_streams c05_cfg (serialize c05_pkts)) = 4%nat /\
+  (exists s sh, run_check true c05_cfg (serialize c05_pkts) = R_done s sh 3 /\ map m_off (k_errors s) = [64; 128] /\ length sh = 2%nat).
+Proof.
+  split; [repeat constructor; apply wf_pktb_sound; vm_compute; reflexivity|].
+  split; [intros p [<-|[<-|[<-|[]]]]; vm_compute; exact I|].
+  split; [intros p r E; injection E as <- _; vm_compute; reflexivity|].
+  split; [vm_compute; reflexivity|]. eexists. eexists. split; [vm_compute; reflexivity|]. split; vm_compute; reflexivity.
+Qed.
+
+(* WITHOUT the layout proviso the statement is false of the faithful model, and of the code (finding F18): a well-framed two-link input
+   whose first packet announces data format 0 while its payload is laid out in 10-byte words; the third word is reported at
+   64 + 2*16 = 96, where the second packet -- link 1, priority bit set -- starts; two arrival orders of the same streams end with
+   the messages at offset 96 in different orders (the same offsets, another order of the message bodies) *)
+Theorem C05_layout_proviso_needed :
+  Forall wf_pkt f18_pkts /\
+  (forall p r, f18_pkts = p :: r -> known_sysid (r_system_id (hdr p)) = true) /\
+  ~ (forall p, In p f18_pkts -> layout_rp (hdr p) (p_payload p)) /\
+  exists a1 a2, Interleave (sender_streams f18_cfg (serialize f18_pkts)) a1 /\
+                Interleave (sender_streams f18_cfg (serialize f18_pkts)) a2 /\
+                (exists s1 s2 sh1 sh2, run_check_sched true f18_cfg (serialize f18_pkts) a1 = R_done s1 sh1 0 /\
+                                       run_check_sched true f18_cfg (serialize f18_pkts) a2 = R_done s2 sh2 0 /\
+                                       map (fun m => (m_off m, m_body m)) sh1 <> map (fun m => (m_off m, m_body m)) sh2 /\
+                                       map m_off sh1 = map m_off sh2).
+Proof. exact c05_layout_proviso_needed. Qed.
+
 Print Assumptions C05_collector_schedule_independent.
 Print Assumptions C05_sort_is_the_codes.
 Print Assumptions C05_stable_sort_determined.
 Print Assumptions C05_interleave_filter.
 Print Assumptions C05_refuted_unsorted_when_muted.
+Print Assumptions C05_whole_run.
+Print Assumptions C05_model_run_is_one_schedule.
+Print Assumptions C05_run_streams_ok.
+Print Assumptions C05_whole_run_nonvacuous.
+Print Assumptions C05_layout_proviso_needed.
